@@ -21,6 +21,32 @@ CHECKS = {
    note="Trusted: Lean kernel; standard axioms; Spec/Types.lean (OData signatures, typed in); T-gen probing + T-corr harness. "
         "args[i] beyond a call's argument list (IndexError) is outside the model - the parser guarantees arities.",
    design="§6 C18", technique="Lean 4 proof (structural recursion, finite table by decide) + probed-table tie theorem + differential correspondence"),
+ "C14": dict(
+   text="Lean 4 refinement theorem `C14.rewrite_eq_subst`: for every alias table and every tree of the parser's shape, the model of "
+        "AliasRewriter (identifier / path lookup with owner recursion, function names and parameter names kept, lambda variables shadowing "
+        "aliases rooted at them) equals substitution on field references under a binder environment (Spec.Subst); corollaries empty_id, "
+        "nonmatching_id (no key occurs => identity). Model run against the real rewriter on random full-grammar ASTs x 12 alias maps "
+        "(overlapping path/owner keys, built-in function names, named-parameter names, lambda variables), input compared before/after, "
+        "fresh-name bijection + inverse executed.",
+   note="Trusted: Lean kernel, standard axioms, Spec/Subst.lean, harness. Non-mutation of the Python input object and the bijection round trip are "
+        "checked by execution (partial: not theorems). The real rewriter was repaired first (fix: 84f2034: function names, parameter names, lambda variables).",
+   design="§6 C14", technique="Lean 4 refinement proof (mutual structural recursion over the uniform AST) + differential correspondence"),
+ "C16": dict(
+   text="Lean 4 theorems over the model of NodeVisitor/NodeTransformer on the uniform dataclass tree: the trace of visit calls is the "
+        "document-order list of all nodes (preorder, each_once, dispatch), a transformer without overrides is the identity (transform_id, "
+        "for every tree), an override for one kind changes exactly the nodes of that kind (transform_override, both handler styles), "
+        "override_absent_kind; wf_toTree shows every typed AST has the assumed shape. Instrumented subclasses of the real base classes are "
+        "run against the model on random full-grammar trees; == and non-mutation (every shipped visitor on a deep copy) are checked by execution.",
+   note="Trusted: Lean kernel, standard axioms, Spec/Traversal.lean, harness. Partial: non-mutation of Python objects, list aliasing and `==` are "
+        "runtime facts - covered by the correspondence run only.",
+   design="§6 C16", technique="Lean 4 proof (mutual structural recursion) + instrumented differential correspondence + runtime before/after comparison"),
+ "C17": dict(
+   text="Lean 4 theorem `C17.strip_eq_reroot`: for every variable and every well-shaped tree the model of IdentifierStripper equals "
+        "re-rooting on the (root, segments) view of paths (Spec.Reroot), proved by recursion along owner chains; absent_id; "
+        "strip_eq_reroot_expr for every typed AST and identifier. Model run against expression_relative_to_identifier on paths of "
+        "depth 1..4 in every operand context x 7 variable names (plain field, inner segment, namespaced).",
+   note="Trusted: Lean kernel, standard axioms, Spec/Reroot.lean, harness.",
+   design="§6 C17", technique="Lean 4 proof (structural recursion along paths) + differential correspondence"),
 }
 NOT_APPLICABLE = {}
 
